@@ -1,6 +1,8 @@
 package main
 
 import (
+	"os"
+	"runtime/debug"
 	"fmt"
 	"go/token"
 	"go/types"
@@ -65,6 +67,7 @@ type Gen struct {
 	named     map[Sort][]namedTerm
 	namedSeen map[string]bool
 	verWM     map[string]string // heap version -> allocation watermark when it was created
+	axiomSeen  map[string]bool
 	initDone   map[string]bool
 	specInit   int
 	UsedLemmas map[string]bool
@@ -100,7 +103,19 @@ func (g *Gen) addAsm(text string) {
 }
 
 // axiom: valid in every state, usable by every obligation
-func (g *Gen) addAxiom(text string) { g.asms = append(g.asms, asmRec{0, text}) }
+func (g *Gen) addAxiom(text string) {
+	if text == "true" {
+		return
+	}
+	if g.axiomSeen == nil {
+		g.axiomSeen = map[string]bool{}
+	}
+	if g.axiomSeen[text] {
+		return
+	}
+	g.axiomSeen[text] = true
+	g.asms = append(g.asms, asmRec{0, text})
+}
 
 func (g *Gen) beginGoal() string {
 	g.originCtr++
@@ -121,7 +136,7 @@ func (g *Gen) addNamed(v *SVal) {
 		}
 		return
 	}
-	if v.T == nil || !(v.K == KInt || v.K == KPtr) || g.inQuant > 0 {
+	if v.T == nil || !(v.K == KInt || v.K == KPtr || v.K == KString || v.K == KOpaque || v.K == KArray) || g.inQuant > 0 {
 		return
 	}
 	srt := g.W.scalarSort(v.T)
@@ -321,6 +336,9 @@ func (g *Gen) nm(prefix string) string {
 
 func (g *Gen) fresh(prefix string, s Sort) string {
 	if g.inQuant > 0 {
+		if os.Getenv("GOVC_DEBUG") != "" {
+			debug.PrintStack()
+		}
 		panic(specErr("expression under a quantifier needs a fresh symbol (" + prefix + "); not supported"))
 	}
 	n := g.nm(prefix)
@@ -535,7 +553,9 @@ func (g *Gen) allocatedIn(st *State, ver string, ref string) string {
 // refFactsVer: like refFacts but relative to the heap version the value was read from
 func (g *Gen) refFactsVer(st *State, ver string, v *SVal) string {
 	switch v.K {
-	case KPtr, KMap:
+	case KPtr:
+		return sAnd(g.allocatedIn(st, ver, v.Term), insideObject(v))
+	case KMap:
 		return g.allocatedIn(st, ver, v.Term)
 	case KSlice:
 		return g.allocatedIn(st, ver, v.Sub[0].Term)
@@ -691,9 +711,24 @@ func (g *Gen) zeroScalar(t types.Type) string {
 		return n
 	case KArray:
 		a := t.Underlying().(*types.Array)
-		return fmt.Sprintf("((as const %s) %s)", g.W.scalarSort(t), g.zeroScalar(a.Elem()))
+		return g.constArray(g.W.scalarSort(t), g.W.scalarSort(a.Elem()), g.zeroScalar(a.Elem()))
 	}
 	panic(unsupported("zero of " + t.String()))
+}
+
+// constArray: an array holding v everywhere. Solvers accept (as const ...) only for interpreted values;
+// for uninterpreted sorts a named array with a defining axiom is used instead.
+func (g *Gen) constArray(arrS Sort, elemS Sort, v string) string {
+	if strings.HasPrefix(string(elemS), "(_ BitVec") || elemS == SBool || strings.HasPrefix(v, "((as const") {
+		return fmt.Sprintf("((as const %s) %s)", arrS, v)
+	}
+	name := sym("constarr!" + string(elemS) + "!" + v)
+	if !g.ufDecl[name] {
+		g.ufDecl[name] = true
+		g.decls = append(g.decls, fmt.Sprintf("(declare-const %s %s)", name, arrS))
+		g.addAxiom(fmt.Sprintf("(forall ((i (_ BitVec 64))) (! (= (select %s i) %s) :pattern ((select %s i))))", name, v, name))
+	}
+	return name
 }
 
 func (g *Gen) zero(t types.Type) *SVal {
@@ -851,10 +886,32 @@ func (g *Gen) havocAlloc(st *State, reach string) {
 	st.heaps[allocHeap] = n
 }
 
+// insideObject: a typed pointer's pointee lies inside one allocated object (objects are < 1 MiB)
+func insideObject(v *SVal) string {
+	if v.K != KPtr || v.T == nil {
+		return "true"
+	}
+	pt, ok := v.T.Underlying().(*types.Pointer)
+	if !ok {
+		return "true"
+	}
+	var sz int64
+	func() {
+		defer func() { recover() }()
+		sz = sizes.Sizeof(pt.Elem())
+	}()
+	if sz <= 0 || sz > 1<<19 {
+		return "true"
+	}
+	return sOr(sEq(v.Term, bv64(0)), sApp("bvule", sApp("bvadd", sApp("bvand", v.Term, bv64((1<<20)-1)), bv64(sz)), bv64(1<<20)))
+}
+
 // refFacts collects allocation facts for every reference inside v.
 func (g *Gen) refFacts(st *State, v *SVal) string {
 	switch v.K {
-	case KPtr, KMap:
+	case KPtr:
+		return sAnd(g.allocated(st, v.Term), insideObject(v))
+	case KMap:
 		return g.allocated(st, v.Term)
 	case KSlice:
 		return g.allocated(st, v.Sub[0].Term)
